@@ -30,12 +30,16 @@ def insertEntry (e : Entry) : List Entry → List Entry
 /-- `sorted(packed_refs.keys())` (names are unique: they are dict keys) -/
 def sortEntries (es : List Entry) : List Entry := es.foldr insertEntry []
 
+/-- `b"^" + peeled_refs[refname] + b"\n"` when the name has a peeled value -/
+def peeledBytes (e : Entry) : Bytes :=
+  match e.peeled with
+  | some p => packedCaret :: p ++ [10]
+  | none => []
+
 /-- the loop of `write_packed_refs`: `git_line(sha, name)` then the `^peeled` line when there is one -/
 def writeEntries : List Entry → Bytes
   | [] => []
-  | e :: r =>
-    e.sha ++ 32 :: e.name ++ 10 ::
-      ((match e.peeled with | some p => packedCaret :: p ++ [10] | none => []) ++ writeEntries r)
+  | e :: r => e.sha ++ 32 :: e.name ++ 10 :: (peeledBytes e ++ writeEntries r)
 
 /-- `write_packed_refs(f, packed, peeled)` with `peeled is not None`, entries in the order given -/
 def writeFile (es : List Entry) : Bytes := packedHeader ++ writeEntries es
